@@ -51,6 +51,11 @@ pub mod mm {
     /// Returns the approximate square root of `x`.
     #[inline]
     pub fn sqrt(x: f32) -> f32 {
+        if x == 0.0 {
+            // The bit-level first guess is far off for a zero of either
+            // sign: sqrt(-0.0) would come out as 1.4e19
+            return x;
+        }
         let y = mm::sqrt(x);
         // One round of Newton's method
         0.5 * (y + (x / y))
